@@ -41,10 +41,23 @@ def _b():
 
 
 def _f(x):
-    return enc(float(x))
+    """enc(float(x)) without the detour through Fraction (same encoding: int or 'p/q' in lowest terms)"""
+    x = float(x)
+    if x != x or x in (float("inf"), float("-inf")):
+        return enc(x)
+    p, q = x.as_integer_ratio()
+    return p if q == 1 else "%d/%d" % (p, q)
 
 
 def _fl(j):
+    """float(dec(j)) without the detour through Fraction: int / int is correctly rounded (exact for the
+    binary values the transport carries)"""
+    if type(j) is str:
+        p, sep, q = j.partition("/")
+        if sep:
+            return int(p) / int(q)
+    elif type(j) is int:
+        return float(j)
     v = dec(j)
     return v if isinstance(v, float) else float(v)
 
@@ -458,13 +471,13 @@ def problems_hist(c, io, drv):
                     return out
                 for part in ("num", "den"):
                     got = _trim(sec[part], len(spec["secs"][k][part]))
-                    if not b._close_list(got, spec["secs"][k][part], b.TOL):
+                    if not b._ulp_close(got, spec["secs"][k][part]):
                         out.append(("spec", name + ":sample-by-sample",
                                     "step %d (design %d, section %d) %s: %r; the constant design for the values this "
                                     "instant must get (%r, %r) has %r" % (
                                         t, op[1], k, part, [_fl(x) for x in got], _fl(spec["v1"]), _fl(spec["v2"]),
                                         [_fl(x) for x in spec["secs"][k][part]])))
-                    if not b._close_list(got, model["secs"][k][part], b.TOL):
+                    if not b._ulp_close(got, model["secs"][k][part]):
                         out.append(("model", name + ":sample-by-sample", "step %d section %d %s: impl %r model %r" % (
                             t, k, part, [_fl(x) for x in got], [_fl(x) for x in model["secs"][k][part]])))
                 if contracts:
